@@ -64,8 +64,28 @@ class Gen:
         tp = r.randrange(2) if r.random() < 0.3 else 0
         return (gtype << 12) | (ver << 11) | (tp << 10) | (pty << 5) | (low5 & 31)
 
+    def replay(self):
+        """a group delivered earlier (one of the last 12), verbatim, error-free, or with fresh error codes: re-delivery after
+        intervening traffic, settings changes or a reset is where caches and 'same as last time' shortcuts show"""
+        r = self.r
+        v = list(r.choice(self.recent))
+        x = r.random()
+        if x < 0.4: pass
+        elif x < 0.7: v[4:] = [0, 0, 0, 0]
+        else: v[4:] = [self.err(0.6) for _ in range(4)]
+        self.count("replay")
+        return "p %d %d %d %d %d %d %d %d" % tuple(v)
+
+    def remember(self, line):
+        if not hasattr(self, "recent"): self.recent = []
+        self.recent.append([int(x) for x in line.split()[1:]])
+        if len(self.recent) > 12: self.recent.pop(0)
+        return line
+
     def group(self, gtype=None, ver=None, zero=None):
         r = self.r
+        if gtype is None and getattr(self, "recent", None) and r.random() < 0.07:
+            return self.replay()
         if gtype is None:
             x = r.random()
             if x < 0.25: gtype = 0
@@ -110,7 +130,7 @@ class Gen:
         b = self.block_b(gtype, ver, low5)
         self.count("type%d%s" % (gtype, "AB"[ver]))
         e = [self.err(zero) for _ in range(4)]
-        return "p %d %d %d %d %d %d %d %d" % (a, b, c, d, e[0], e[1], e[2], e[3])
+        return self.remember("p %d %d %d %d %d %d %d %d" % (a, b, c, d, e[0], e[1], e[2], e[3]))
 
     def hexgroup_ok(self):
         r = self.r
@@ -217,6 +237,8 @@ class Gen:
                 out.append("clear")
                 if r.random() < 0.5:
                     out += self.settings_block()
+                if getattr(self, "recent", None) and r.random() < 0.5:
+                    out += [self.replay() for _ in range(r.randrange(1, 4))]   # what was received just before the reset, again
             elif x < 0.98:
                 self.count("init")
                 out.append("init" if r.random() < 0.5 else "new")
@@ -400,7 +422,10 @@ def sweep_thresholds(text=0, stride=1, phase=0):
                         for ed in range(5):
                             for byte in range(256):
                                 n += 1
-                                if (n + phase) % stride: continue
+                                # the bytes with a rule of their own (end-of-text, blank, first/last of the >= 0x7F range, a control
+                                # code) are never thinned out for error codes 0..3; the others are taken every `stride`-th time
+                                special = byte in (0x0D, 0x20, 0x7F, 0xFF, 0x1F) and eb < 4 and ed < 4 and (stride == 1 or prior != 3)
+                                if (n + phase) % stride and not special: continue
                                 out.append("clear")
                                 # prior cell states: never received / 'A' at level 0 / 'A' at a corrected level / same byte at level 0
                                 if prior == 1: out.append(P(0x1234, btmpl, 0x4141, 0x4141))
